@@ -30,13 +30,15 @@ def half_multi_inputs():
     return out
 
 
-def model_kernels():
+def model_kernels(wanted=None):
     """Generates kernels.v, evaluates it, returns {kernel: value} in the harness's shapes."""
     weights = [1, 2, 3, 7, (1 << 63) - 1]
-    lines = ["From CacheD Require Import Harness.", "Open Scope Z_scope."]
+    lines = ["From CacheD Require Import Harness Precond.", "Open Scope Z_scope."]
     names = []
 
     def ev(name, expr):
+        if wanted is not None and name not in wanted:
+            return
         names.append(name)
         lines.append("Eval vm_compute in (%s)." % expr)
 
@@ -81,7 +83,14 @@ def model_kernels():
             for nanos in (0, 1, 999999999):
                 sh_keys.append((shards, secs * 1000000000 + nanos))
     ev("shard_index", "[" + "; ".join("k_shard %d %d" % k for k in sh_keys) + "]")
-    vfile = os.path.join(TMP, "kernels.v")
+    cfg_keys = [(c, cap, w, p, b, q, sh) for c in (0, 1, 16) for cap in (0, 1, 16) for w in (-1, 0, 1, 100) for p in (0, 1, 2) for b in (0, 1)
+                for q in (0, 1) for sh in (0, 1, 2, 3, 4, 6, 8, 12, 16)]
+    ev("config_accepted", "[" + "; ".join("bool_to_Z (config_accepted %s %s %s %s %s %s %s)" % tuple(zlit(x) for x in k) for k in cfg_keys) + "]")
+    def o(x):
+        return "None" if x is None else "(Some %s)" % zlit(x)
+    ups_keys = [(v, w, t, rm) for v in (None, 7) for w in (None, -1, 0, 1, 5) for t in (None, 0, 5000000000) for rm in (False, True)]
+    ev("upsert_accepted", "[" + "; ".join("bool_to_Z (upsert_accepted %s %s %s %s)" % (o(v), o(w), o(t), "true" if rm else "false") for v, w, t, rm in ups_keys) + "]")
+    vfile = os.path.join(TMP, "kernels_%s.v" % ("all" if wanted is None else sha(sorted(wanted))[:8]))
     with open(vfile, "w") as f:
         f.write("\n".join(lines) + "\n")
     vals = parse_coq_values(coqc_eval(vfile))
@@ -89,7 +98,7 @@ def model_kernels():
         raise Broken("model-eval", "kernels.v: %d answers for %d kernels" % (len(vals), len(names)))
     res = dict(zip(names, vals))
     res["_keys"] = dict(row_multi=multi_keys, next_power_2=np2, is_space_available_for=space_keys, update_weight_stats=upd_keys,
-                        shard_index=sh_keys)
+                        shard_index=sh_keys, config_accepted=cfg_keys, upsert_accepted=ups_keys)
     return res
 
 
@@ -98,6 +107,7 @@ KERNEL_COMPONENT = {
     "row_increment_at": "sketch", "row_get_at": "sketch", "row_half": "sketch", "row_multi": "sketch", "row_half_multi": "sketch", "next_power_2": "sketch",
     "sampled_key_cmp": "admission", "type_of_expiry_update": "api", "hit_ratio": "stats.hit_ratio",
     "is_space_available_for": "weights", "update_weight_stats": "weights", "shard_index": "ticker",
+    "config_accepted": "preconditions", "upsert_accepted": "preconditions",
 }
 
 
@@ -106,7 +116,7 @@ def compare_kernels(binary, wanted=None):
     dict(kernel, component, index, input, model, impl)."""
     from corr import ratio_bits, f64_bits
     impl = {r["kernel"]: r["value"] for r in run_harness(binary, ["kernels"])}
-    model = model_kernels()
+    model = model_kernels(wanted)
     keys = model["_keys"]
     mism = []
     counts = {}
@@ -157,6 +167,8 @@ def compare_kernels(binary, wanted=None):
             cmp_list(name, mv, [[1 if x[2] else 0, x[3], x[4], x[5], x[6]] for x in iv], keys[name])
         elif name == "shard_index":
             cmp_list(name, mv, [x[2] for x in iv], keys[name])
+        elif name in ("config_accepted", "upsert_accepted"):
+            cmp_list(name, mv, [1 if x[-1] else 0 for x in iv], keys[name])
     return mism, sum(counts.values()), counts
 
 
